@@ -32,3 +32,55 @@ package batching
 //@   ensures !(old(len(b.batch)) == 0 || (token != CurrentBatch && old(b.batchToken) != token)) ==>
 //@           len(result) == old(len(b.batch)) && len(b.batch) == 0 && b.batchToken == old(b.batchToken) + 1 &&
 //@           forall(0, len(result), func(j int) bool { return result[j] == old(b.batch[j]) })
+
+// ---- in-order results of asynchronous batches (C04). The reorder buffer hands out sequence
+// numbers 0, 1, 2, ... and drains results strictly in that order, each once. All of its state is
+// guarded by mu (Reserve is called from the adding goroutine and from the time-out goroutine).
+//@ type ReorderBuffer
+//@   guards mu: items, nextSeqNum, drainedSeqNum
+
+//@ func ReorderBuffer.Add
+//@   property C04
+//@   modifies b.items
+//@   ensures forall(func(k uint64) bool { return has(b.items, k) == (old(has(b.items, k)) || k == seq) }) && same(b.items[seq], item)
+//@   ensures forall(func(k uint64) bool { return k != seq ==> same(b.items[k], old(b.items[k])) })
+
+//@ func ReorderBuffer.Reserve
+//@   property C04
+//@   nowrap
+//@   modifies b.nextSeqNum
+//@   ensures result == old(b.nextSeqNum) && b.nextSeqNum == old(b.nextSeqNum) + 1
+
+// Drain yields the buffered results from drainedSeqNum on, without a gap, removes them, and
+// stops at the first missing sequence number.
+//@ func ReorderBuffer.Drain
+//@   property C04
+//@   nowrap
+//@   modifies b.items, b.drainedSeqNum
+//@   ensures b.drainedSeqNum == old(b.drainedSeqNum) + seqlen(result)
+//@   ensures forall(0, seqlen(result), func(k int) bool { return has(old(b.items), old(b.drainedSeqNum)+uint64(k)) && same(seqat(result, k), old(b.items)[old(b.drainedSeqNum)+uint64(k)]) })
+//@   ensures !has(old(b.items), b.drainedSeqNum)
+//@   ensures forall(func(k uint64) bool { return has(b.items, k) == (old(has(b.items, k)) && !(old(b.drainedSeqNum) <= k && k < b.drainedSeqNum)) })
+//@   loop 0:
+//@     invariant b.drainedSeqNum == old(b.drainedSeqNum) + uint64(len(out_))
+//@     invariant forall(0, len(out_), func(k int) bool { return has(old(b.items), old(b.drainedSeqNum)+uint64(k)) && same(out_[k], old(b.items)[old(b.drainedSeqNum)+uint64(k)]) })
+//@     invariant forall(func(k uint64) bool { return has(b.items, k) == (old(has(b.items, k)) && !(old(b.drainedSeqNum) <= k && k < b.drainedSeqNum)) })
+//@     invariant forall(func(k uint64) bool { return has(b.items, k) ==> same(b.items[k], old(b.items)[k]) })
+
+// flush: taking the current batch and reserving its place in the output order is one atomic
+// step (flush runs on the adding goroutine and on the time-out goroutine); the batch's result
+// is stored under exactly the reserved number, after it was fetched for exactly these events.
+//@ func ReorderFetcher.flush
+//@   property C04
+//@   nosafety
+//@   atcall Flush: held(d.flushMu)
+//@   atcall Reserve: held(d.flushMu)
+//@   order Reserve after Flush
+
+//@ func ReorderFetcher.flush$0
+//@   property C04
+//@   nosafety
+//@   order Add after fetchBatch
+//@   order Drain after Add
+//@   atcall fetchBatch: same(arg1, events)
+//@   atcall Add: arg0 == seqNum && same(arg1, result)
